@@ -182,6 +182,34 @@ def gen_case(rng: random.Random, k: int) -> Dict[str, Any]:
                 txt, valid = rng.choice(["free", ""]), False
             price_rows.append({"time": _fmt_time(rng, t), key_col: key, "charger_id": plug, "price_kwh": txt})
             model_prices.append({"time": t, "key": n.get("pkey", key), "plug": n.get("chg", plug), "price": q(price), "valid": valid})
+        if keys and ptimes and rng.random() < 0.35:
+            # one batch (same time stamp) in which several keys name the same station and plug type with
+            # different prices: which one is in force afterwards is decided by the order of the keys
+            def _covers(key: str, s) -> bool:
+                if key == s.id:
+                    return True
+                try:
+                    if not h3.h3_is_valid(key):
+                        return False
+                    res = h3.h3_get_resolution(key)
+                except Exception:
+                    return False
+                return res <= 15 and h3.h3_to_parent(s.geoid, res) == key
+            s0 = rng.choice(stations)
+            cov = [k_ for k_ in keys if _covers(k_, s0)]
+            if len(cov) >= 2:
+                t = rng.choice(ptimes)
+                plug = rng.choice(sorted(s0.state.keys()))
+                batch = rng.sample(cov, rng.randint(2, min(3, len(cov))))
+                pool = [0.05, 0.13, 0.31, 0.5, 1.7, 2.25]
+                rng.shuffle(pool)
+                for key, price in zip(batch, pool):
+                    price_rows.append({"time": str(t), key_col: key, "charger_id": plug, "price_kwh": repr(price)})
+                    model_prices.append({"time": t, "key": n.get("pkey", key), "plug": n.get("chg", plug), "price": q(price), "valid": True})
+                # keep the file sorted by time (stable: the batch's rows stay in the order they were drawn)
+                order = sorted(range(len(price_rows)), key=lambda i: model_prices[i]["time"])
+                price_rows = [price_rows[i] for i in order]
+                model_prices = [model_prices[i] for i in order]
         chargers_file = os.path.join(tmp, "chargers.csv")
         with open(chargers_file, "w", newline="") as f:
             wr = csv.writer(f)
